@@ -1,4 +1,5 @@
 import Verif.Lemmas.Frames
+import Verif.Lemmas.FramesChunks
 /-! # C03 — Docker log streams are decoded without loss or alteration
 
 Theorems over `Frames.decodeAll` (model of `dockerlog.ParseLog`, tied to the Go code by the C03
@@ -99,6 +100,13 @@ theorem C03_decode_no_space (hc : Codec fmtTs parseTs) (rs : List Rec) (hr : ∀
     rw [decode, step_raw _ _ _ hlen]
     simp [ht, cutSpace_none p hsp]
   rw [this]; simp
+
+/-- **C03 (fragmentation)**: delivering the byte stream in arbitrarily fragmented reads (including
+empty reads) decodes to the same result as the whole stream (for the modelled `io.ReadFull` /
+`io.CopyN` contract `readN`). -/
+theorem C03_decode_chunks (parseTs : List Nat → Option Int) (cs : List (List Nat)) :
+    decodeChunks parseTs (cs.flatten.length + 1) cs = decodeAll parseTs cs.flatten :=
+  decodeChunks_eq_decode parseTs _ cs
 
 /-! Non-vacuity: a codec exists (unary, sign-prefixed), and a well-formed record for it. -/
 def exFmt (t : Int) : List Nat := (if t < 0 then [45] else [43]) ++ List.replicate t.natAbs 49
